@@ -280,13 +280,20 @@ class Case:
 
 
 def _run_tool(cmd, text, timeout):
+    # a private TMPDIR per run: a case that dies inside the implementation (crash, watchdog) cannot
+    # remove the scratch files its harness made, so the whole directory goes afterwards
+    td = tempfile.mkdtemp(prefix="iauthd_verif_run_", dir=os.environ.get("TMPDIR") or "/var/tmp")
+    env = run_env()
+    env["TMPDIR"] = td
     try:
         p = subprocess.run(cmd, input=text, stdout=subprocess.PIPE, stderr=subprocess.PIPE, text=True,
-                           env=run_env(), timeout=timeout, errors="replace")
+                           env=env, timeout=timeout, errors="replace")
         return p.stdout, p.stderr, p.returncode
     except subprocess.TimeoutExpired as e:
         so = e.stdout.decode(errors="replace") if isinstance(e.stdout, bytes) else (e.stdout or "")
         return so, "TIMEOUT", -9
+    finally:
+        shutil.rmtree(td, ignore_errors=True)
 
 
 def split_records(out_text, cases):
